@@ -256,7 +256,7 @@ func init() {
 		spec := &mc.Spec{
 			Level: "exploration",
 			Rule: "pairs of concurrent runs over {ptrace, namespace, container A, container B} (thorough: also triples with the third run interleaved at every position), each cut into three gated phases; every merge of the phase sequences (20 per pair) is executed; each run has its own descriptor list (stdin pipe + 1/2 private files), exit code and output file; " +
-				"plus calls on one environment issued while another call on it is in flight (Execve behind Execve; Ping, Open, Reset behind a long Execve, incl. longer than the ping timeout). plus the signal of a finished run: the SIGKILL of a run's cancellation goroutine (ptrace tracer, namespace runner) released at once / after the run returned / once a later run's program exists under the finished run's process id (helper in a private pid namespace, pid space of the namespace made small through its pid_max so that ids come round within a few dozen forks) — in every schedule the code admits the later run ends as alone. Differential oracle: verdict, exit value and the program's descriptor table (every descriptor must be one of the run's own files) equal what the same run observes alone. " +
+				"plus calls on one environment issued while another call on it is in flight — while its program runs, or while it is still inside its synchronisation callback — (Execve behind Execve; Ping, Open, Reset behind a long Execve, incl. longer than the ping timeout). plus the signal of a finished run: the SIGKILL of a run's cancellation goroutine (ptrace tracer, namespace runner) released at once / after the run returned / once a later run's program exists under the finished run's process id (helper in a private pid namespace, pid space of the namespace made small through its pid_max so that ids come round within a few dozen forks) — in every schedule the code admits the later run ends as alone. Differential oracle: verdict, exit value and the program's descriptor table (every descriptor must be one of the run's own files) equal what the same run observes alone. " +
 				"non-trivial: the merge actually overlaps the two runs; distinct = (pair, merge, observations)",
 			Bound:       map[string]any{"phases_per_run": 3, "merges_per_pair": 20, "merges_per_triple(thorough)": 1680, "triples(thorough)": 4},
 			Assumptions: []string{"schedules are exhaustive at phase granularity; thread-level interleavings inside fork…exec are not controlled (the fork lock is observed through descriptor tables only)"},
@@ -277,7 +277,7 @@ func init() {
 				return
 			}
 			if fam == "descriptor-of-another-run" {
-				c17holders(x)
+				c17holders(x, tier)
 				return
 			}
 			if fam == "program-file-busy-through-another-launch" {
@@ -410,7 +410,14 @@ func init() {
 func c17sameEnv(x *mc.X) {
 	second := x.Pick("second-call", "execve", "ping", "open", "reset", "ping-behind-execve-longer-than-ping-timeout",
 		"failing-ptrace-run-on-the-thread-that-built-the-environment", "failing-namespace-run-on-the-thread-that-built-the-environment")
-	x.Note("same-environment", "execve in flight, then "+second)
+	// when the second call is issued: while the first call's program runs, or while the first call is still inside its
+	// synchronisation callback (the container then waits for the host's go-ahead: a command slipping in there is taken
+	// for it)
+	during := "program-runs"
+	if !strings.HasPrefix(second, "failing-") && second != "ping-behind-execve-longer-than-ping-timeout" {
+		during = x.Pick("issued-while", "program-runs", "first-call-is-inside-its-callback")
+	}
+	x.Note("same-environment", "execve in flight ("+during+"), then "+second)
 	if x.Dry() {
 		return
 	}
@@ -431,10 +438,12 @@ func c17sameEnv(x *mc.X) {
 		x.Failf("C17/same-env/harness", "%v", err)
 		return
 	}
-	if err := r.release(); err != nil {
-		c17abort([]*c17run{r})
-		x.Failf("C17/same-env/first-run-stuck", "%v", err)
-		return
+	if during == "program-runs" {
+		if err := r.release(); err != nil {
+			c17abort([]*c17run{r})
+			x.Failf("C17/same-env/first-run-stuck", "%v", err)
+			return
+		}
 	}
 	// second call is issued now; it must wait for the first and then complete normally
 	out := make(chan string, 1)
@@ -462,6 +471,21 @@ func c17sameEnv(x *mc.X) {
 		hold = 3500 * time.Millisecond
 	}
 	time.Sleep(hold)
+	if during != "program-runs" {
+		// the first call has not even been told to go ahead: whatever the second call is, it cannot be over yet
+		select {
+		case early := <-out:
+			x.Failf("C17/same-env/second-call-overtook-the-first/"+second, "a %s issued while the first execve was inside its callback returned %s before that callback had returned", second, early)
+			out <- early
+		default:
+		}
+		if err := r.release(); err != nil {
+			c17abort([]*c17run{r})
+			x.Failf("C17/same-env/first-run-stuck", "%v", err)
+			c17drop()
+			return
+		}
+	}
 	if err := r.finish(); err != nil {
 		c17abort([]*c17run{r})
 		x.Failf("C17/same-env/first-run-stuck", "%v", err)
@@ -478,7 +502,7 @@ func c17sameEnv(x *mc.X) {
 	}
 	first := r.observation()
 	want := map[string]string{"execve": `Nonzero Exit Status exit=5 ""`, "ping": "<nil>", "ping-behind-execve-longer-than-ping-timeout": "<nil>", "open": "<nil>", "reset": "<nil>"}[second]
-	x.Distinct(fmt.Sprint(second, first, said))
+	x.Distinct(fmt.Sprint(second, during, first, said))
 	x.Outcome("same-env:" + second)
 	if !strings.HasPrefix(first, "Nonzero Exit Status exit=11 err=\"\"") || strings.Contains(first, "FOREIGN") {
 		x.Failf("C17/same-env/first-call-disturbed/"+second, "execve with a %s queued behind it observed %s", second, first)
